@@ -1,5 +1,6 @@
 """Fail step: raises vfail.err(vfail.msg) when vfail.when is absent or true.  With vfail.cached: k
-the error is ONE pre-built object per k (msg taken as is), raised again by every failure."""
+the error is ONE pre-built object per k (msg taken as is), raised again by every failure.  With vfail.cause
+the error is raised `from` an instance of that class (which changes nothing about the error itself)."""
 import vstate
 
 
@@ -27,4 +28,6 @@ def run_step(context):
         raise vstate.CACHED[k]
     if go:
         msg = context.get_formatted_value(cfg['msg'])
+        if 'cause' in cfg:
+            raise vstate.error_class(cfg['err'])(msg) from vstate.error_class(cfg['cause'])('the cause')
         raise vstate.error_class(cfg['err'])(msg)
